@@ -14,6 +14,9 @@ PROPS = {
                     "on the real loop-free function; loop-free symbolic execution over fully symbolic inputs is unbounded",
         trusted_base=[],
     ),
+    "C01": dict(functions=["drainage"], level="proof", explanation="per-process mass contracts with loop invariants over the spec sum wsum", trusted_base=[]),
+    "C03": dict(functions=["drainage"], level="proof", explanation="water_inv as inductive invariant of each process", trusted_base=[]),
+    "C04": dict(functions=["drainage"], level="proof", explanation="sign / ordering postconditions", trusted_base=[]),
 }
 
 
